@@ -106,6 +106,15 @@ package pcache
 //@   loop 3: invariant pcOK(pc) && held(pc.writeLock) && pc.seq == seq && seq != old(pc.seq) && updates != nil && isfresh(updates)
 //@   loop 4: invariant pcOK(pc) && held(pc.writeLock) && pc.seq == seq && seq != old(pc.seq) && updates != nil && isfresh(updates)
 //@   loop 5: invariant pcOK(pc) && held(pc.writeLock) && pc.seq == seq && seq != old(pc.seq) && updates != nil && isfresh(updates) && m != nil && isfresh(m)
+// expiry and publication rules, per provider of the write map (loop 4): one still reported is never removed
+// and, if its record changed in this refresh, is re-published; one no longer reported is removed (leaving a tombstone that overrides the main map) only once its removal timer, armed by an earlier refresh, has run out.
+//@   loop 4: iteration ensures cinfo.seq == seq ==> has(pc.write, pid) && (cinfo.updateSeq == seq ==> has(updates, pid))
+//@   loop 4: iteration ensures !has(pc.write, pid) ==> has(updates, pid) && updates[pid] == nil
+//@   at call delete#1: assert cinfo.seq != seq && cinfo.expiresAt != zero("time.Time") && now > cinfo.expiresAt
+// a merged main map has, for every provider of the write map, the updated record if there is one, else the old one:
+//@   loop 5: invariant all(k, visitedkey(pc.write, k) ==> has(m, k) && m[k] == ite(has(updates, k), updates[k], read.m[k]))
+//@   at call Store#2: assert all(k, has(pc.write, k) ==> has(arg1.m, k) && arg1.m[k] == ite(has(updates, k), updates[k], read.m[k]))
+//@   at call Store#1: assert arg1.u == updates && arg1.m == read.m
 
 // fetchMissing (C07): lock balance and guarded access as for Refresh; (C06):
 // a provider that already has an entry in the write map (including a negative
